@@ -196,36 +196,97 @@ theorem pick_search_spec (below : Nat → Bool) (n : Nat) :
     i ≤ n ∧ (i = 0 ∨ below (i - 1) = true) ∧ (i = n ∨ below i = false) :=
   bsearch_spec below n (n + 1) 0 n (Nat.zero_le _) (Nat.le_refl _) (by omega) (Or.inl rfl) (Or.inl rfl)
 
-/-! ### determinism under a seed -/
+/-! ### histories of calls on one sampler; determinism under a seed -/
 
-/-- a sequence of `Sample` calls fed from one generator state: a call consumes one random number
-    unless the temperature is 0 (`toF` turns the 24-bit numerator into the carrier's `n/2^24`) -/
-def sampleSeq (o : Ops α) (toF : Nat → α) (fix : Bool) (P : Params α) :
-    Pcg → List (List α) → List (Except Err Nat)
-  | _, [] => []
-  | p, l :: ls =>
-    if o.beq P.temp o.zero then Sample o fix P (toF 0) l :: sampleSeq o toF fix P p ls
-    else Sample o fix P (toF (pcgFloat24 p).1) l :: sampleSeq o toF fix P (pcgFloat24 p).2 ls
+attribute [local irreducible] pcgFloat24 pcgNext
+
+/-- a call that does not reach the generator returns the same result whatever number it is given -/
+theorem Sample_indep_r (o : Ops α) (fix : Bool) (P : Params α) (logits : List α)
+    (hc : consumes o fix P logits = false) (r r' : α) :
+    Sample o fix P r logits = Sample o fix P r' logits := by
+  cases logits with
+  | nil => rfl
+  | cons v vs =>
+    simp only [consumes, Bool.and_eq_false_iff, Bool.not_eq_false'] at hc
+    simp only [Sample, sampleCore]
+    rcases hc with ht | hc
+    · simp [ht]
+    · cases ht : o.beq P.temp o.zero with
+      | true => simp
+      | false =>
+        simp only [Bool.false_eq_true, if_false]
+        cases fix with
+        | false => simp at hc
+        | true =>
+          simp only [if_true] at hc
+          unfold afterTopK
+          simp only [if_true, bind, Except.bind]
+          cases hs : shiftMax o (topK o P.topK (mkTokens (v :: vs))) with
+          | ok L1 => rw [hs] at hc; simp at hc
+          | error e => rfl
+
+/-- number of random numbers drawn by a history -/
+def draws (o : Ops α) (fix : Bool) (P : Params α) (ls : List (List α)) : Nat :=
+  (ls.filter (consumes o fix P)).length
+
+/-- generator state after a history -/
+theorem sampleStep_state (o : Ops α) (toF : Nat → α) (fix : Bool) (P : Params α) (p : Pcg) (l : List α) :
+    (sampleStep o toF fix P p l).2 = advance pcgFloat24 (if consumes o fix P l then 1 else 0) p := by
+  unfold sampleStep
+  split <;> simp [advance]
+
+theorem advance_add {σ β : Type} (step : σ → β × σ) (m n : Nat) (s : σ) :
+    advance step (m + n) s = advance step n (advance step m s) := by
+  induction m generalizing s with
+  | zero => simp [advance]
+  | succ m ih => rw [Nat.add_right_comm]; simp only [advance]; rw [ih]
+
+/-- **no state but the generator.**  The i-th result of a history of calls on one sampler is the
+    result of that single call made on a sampler whose generator has been advanced by the number
+    of drawing calls before it; nothing else of the earlier calls (their logits, their lengths,
+    their results) matters. -/
+theorem hist_nth (o : Ops α) (toF : Nat → α) (fix : Bool) (P : Params α) (p : Pcg)
+    (ls : List (List α)) (i : Nat) :
+    (sampleHist o toF fix P p ls)[i]? =
+      (ls[i]?).map (fun l =>
+        (sampleStep o toF fix P (advance pcgFloat24 (draws o fix P (ls.take i)) p) l).1) := by
+  induction ls generalizing p i with
+  | nil => simp [sampleHist]
+  | cons l ls ih =>
+    cases i with
+    | zero => simp [sampleHist, draws, advance]
+    | succ i =>
+      simp only [sampleHist, List.getElem?_cons_succ, List.take_succ_cons]
+      rw [ih, sampleStep_state]
+      congr 1
+      funext l'
+      congr 2
+      simp only [draws, List.filter_cons]
+      split
+      · rw [List.length_cons, Nat.add_comm, advance_add]
+      · simp [advance]
+
+theorem sampleHist_length (o : Ops α) (toF : Nat → α) (fix : Bool) (P : Params α) (p : Pcg)
+    (ls : List (List α)) : (sampleHist o toF fix P p ls).length = ls.length := by
+  induction ls generalizing p with
+  | nil => rfl
+  | cons l ls ih => simp [sampleHist, ih]
 
 /-- **deterministic.**  The sampled sequence is a function of (seed, parameters, logits): equal
-    seeds give equal sequences, and the first `m` results do not depend on the later inputs
-    (the stream is consumed causally). -/
+    seeds give equal sequences, and the first `m` results do not depend on the later inputs. -/
 theorem deterministic (o : Ops α) (toF : Nat → α) (fix : Bool) (P : Params α)
     (seed₁ seed₂ : Int) (hs : seed₁ = seed₂) (a b : List (List α)) :
-    sampleSeq o toF fix P (pcgOfSeed seed₁) a = sampleSeq o toF fix P (pcgOfSeed seed₂) a ∧
-    (sampleSeq o toF fix P (pcgOfSeed seed₁) (a ++ b)).take a.length
-      = sampleSeq o toF fix P (pcgOfSeed seed₁) a := by
+    sampleHist o toF fix P (pcgOfSeed seed₁) a = sampleHist o toF fix P (pcgOfSeed seed₂) a ∧
+    (sampleHist o toF fix P (pcgOfSeed seed₁) (a ++ b)).take a.length
+      = sampleHist o toF fix P (pcgOfSeed seed₁) a := by
   subst hs
   refine ⟨rfl, ?_⟩
   generalize pcgOfSeed seed₁ = p
   induction a generalizing p with
-  | nil => simp [sampleSeq]
+  | nil => simp [sampleHist]
   | cons l ls ih =>
-    simp only [List.cons_append, sampleSeq, List.length_cons]
-    split
-    · simp only [List.take_succ_cons]; rw [ih]
-    · simp only [List.take_succ_cons]; rw [ih]
-
+    simp only [List.cons_append, sampleHist, List.length_cons, List.take_succ_cons]
+    rw [ih]
 /-- the random stream is a function of the seed alone, and its k-th element does not depend on
     how many numbers are drawn afterwards -/
 theorem stream_of_seed (seed : Int) (m n : Nat) :
